@@ -180,7 +180,11 @@ def history_case(ctx, idx, rng):
     charges = bool(rng.random() < 0.5)
     pool = gen.OID_POOLS[int(rng.integers(0, len(gen.OID_POOLS)))]
     ctx.pool = pool
-    g = gen.rand_graph(rng, L, idbase=int(rng.integers(0, 4)), maxw=4 if rng.random() < 0.3 else 3, nops=3, charges=charges, pool=pool)
+    g = gen.rand_graph(rng, L, idbase=int(rng.integers(0, 4)), maxw=(4 if rng.random() < 0.3 else 3) if idx % 6 != 1 else 2, nops=3, charges=charges, pool=pool)
+    twins = 0
+    if idx % 3 == 1:
+        # duplicated path prefixes / suffixes: twin nodes reached through IDENTICAL operator lists, with equal or with different labels
+        twins = gen.add_twin_paths(rng, g)
     near = idx % 5 == 2
     if near:
         # coefficients that agree to 6..12 digits without being equal (a tolerance-based operator comparison would merge distinct edges);
@@ -204,7 +208,7 @@ def history_case(ctx, idx, rng):
             raise CaseAbort()
         poly = exp
         ctx.event('rewrite:' + hist[-1].split('-')[0])
-    ctx.case(('rewrites', f'L{min(L, 4)}', 'charged' if charges else 'uncharged', 'near-equal-coefficients' if near else 'dyadic-coefficients', 'ids-default' if pool is None else f'ids{pool}') + tuple(hist), nontrivial=len(hist) >= 1,
+    ctx.case(('rewrites', f'L{min(L, 4)}', 'charged' if charges else 'uncharged', 'near-equal-coefficients' if near else 'dyadic-coefficients', 'twin-paths' if twins else 'no-twins', 'ids-default' if pool is None else f'ids{pool}') + tuple(hist), nontrivial=len(hist) >= 1,
              sample={'L': L, 'history': hist})
 
 
@@ -233,7 +237,7 @@ def chains_then_rewrites(ctx, idx, rng):
 SPEC = {
     'id': 'C16',
     'rule': ('random consistent layered graphs (L 1..6, widths 1..4, parallel edges, multi-operator edges with cancelling coefficients, node charges, '
-             'non-contiguous and colliding id ranges) and graphs from from_opchains are driven through 1..8 random rewrites: simplify, merge_edges '
+             'non-contiguous and colliding id ranges; every third graph with twin paths: duplicated path prefixes / suffixes through identical operator lists whose twin nodes carry equal or different labels) and graphs from from_opchains are driven through 1..8 random rewrites: simplify, merge_edges '
              '(on pairs satisfying the documented conditions, both directions, both argument orders), rename_node_id / rename_edge_id (incl. terminals, '
              'negative ids), illegal renames, add (same / offset / disjoint id ranges), flip. After each: exact polynomial equality with the expected '
              'operator, own structural checker and is_consistent(), counts/widths under simplify, fixed point, merge budget |E|+1, other graph '
